@@ -283,6 +283,17 @@ func genHistory(r *rand.Rand, g *wsclient.Gen, seed int64) *history {
 			h.Steps = append(h.Steps, wsclient.Step{Kind: "write", Op: g.NextOp(bc), PauseUS: 500 + r.Intn(2000)})
 		}
 	}
+	// the last change of a cell lands while a re-run that has already read
+	// that cell is in flight - and nothing follows that would repair a lost
+	// notification
+	if pf := prefer(); len(pf) > 0 && r.Intn(2) == 0 {
+		c := pf[r.Intn(len(pf))]
+		if r.Intn(3) != 0 {
+			h.Cfg.Modes[c] = wsclient.ModeStrobe
+		}
+		h.Steps = append(h.Steps, wsclient.Step{Kind: "idle"},
+			wsclient.Step{Kind: "gate", Cell: c, Phase: 1, Op: g.OpOn(c), Landing: []int{g.OpOn(c)}, PauseUS: 500})
+	}
 	// injections: writes landing at named points inside Rerunner.run / the
 	// subscription closure
 	for k := r.Intn(3); k > 0; k-- {
@@ -401,7 +412,7 @@ func TestCheck(t *testing.T) {
 	run := vlib.Start(t, "C02", "exploration")
 	defer run.Finish()
 	run.Rule("histories over one websocket connection (scripted JSONSocket) against a schemabuilder schema over a mutable store: 14-40 steps of subscribe (ids from a pool of 5, reused after unsubscribe; 1-6 fields over scalars, nullable object, keyed lists (nested), unkeyed object/scalar/nested lists, unions with and without key and a union mixing a key-less and a keyed member, union lists, a live-query field (public reactive.Cache, registers then may fail), a nullable keyed object, a keyed list of BY-VALUE structs holding a slice (non-comparable sources) with an Expensive field, slow and Expensive fields - also on list elements and on the nullable object, with interned source objects so that the reactive cache can hit), " +
-		"one third of the subscriptions use a document with variables ($tag, and $k selecting which cell a field reads), whose text is re-used verbatim by later subscriptions with different variable values, subscribe with a live id, unsubscribe (live / unknown id), mutate (own id namespace), echo, direct writes, write bursts, gate steps (a resolver of an in-flight run is held after AddDependency or after reading while 1-3 further writes, optionally an unsubscribe or a mutation, land), leave/change/return/change sequences for one item (out of the keyed list or the nullable object and back), 0/1/3/5/6/7/9 pass-through middlewares registered with conn.Use (some pausing before/after next), transient resolver failures on re-runs (plain error, safe error, errors wrapping context.Canceled / DeadlineExceeded of a resolver-owned context, safe error around one) followed by recovery, unsubscribe-all sent a fraction of the write-then-read delay after a write that invalidates an idle subscription (reactive.WriteThenReadDelay is 0 in half of the histories, 0.5-3 ms in the rest), plus 0-2 writes injected at named hook points; cases 1-4 are stress histories (600 rounds, thorough 4000: subscribe x4, one invalidating write and, within +-150 us, pipelined unsubscribes each followed by a same-id subscribe to another query); case 0 is a pinned history (unsubscribe during an in-flight run, id re-subscribed while the run's own asynchronous close is pending); " +
+		"one third of the subscriptions use a document with variables ($tag, and $k selecting which cell a field reads), whose text is re-used verbatim by later subscriptions with different variable values, subscribe with a live id, unsubscribe (live / unknown id), mutate (own id namespace), echo, direct writes, write bursts, gate steps (a resolver of an in-flight run is held after AddDependency or after reading while 1-3 further writes, optionally an unsubscribe or a mutation, land), leave/change/return/change sequences for one item (out of the keyed list or the nullable object and back), 0/1/3/5/6/7/9 pass-through middlewares registered with conn.Use (some pausing before/after next), in half of the histories a final step in which the last change of a (mostly Strobe-notified) cell lands while a re-run that has already read it is in flight, transient resolver failures on re-runs (plain error, safe error, errors wrapping context.Canceled / DeadlineExceeded of a resolver-owned context, safe error around one) followed by recovery, unsubscribe-all sent a fraction of the write-then-read delay after a write that invalidates an idle subscription (reactive.WriteThenReadDelay is 0 in half of the histories, 0.5-3 ms in the rest), plus 0-2 writes injected at named hook points; cases 1-4 are stress histories (600 rounds, thorough 4000: subscribe x4, one invalidating write and, within +-150 us, pipelined unsubscribes each followed by a same-id subscribe to another query); case 0 is a pinned history (unsubscribe during an in-flight run, id re-subscribed while the run's own asynchronous close is pending); " +
 		"cells notify by Invalidate-and-replace, Strobe, or per-read resources (seeded per cell); seeded pacing and yield-hook perturbation. " +
 		"Non-trivial = >= 2 writes logged while a subscription execution was in flight AND >= 1 non-initial update with a structural delta (reorder / removal / object, list or null replacement). Distinct = step-kind sequence + set of non-initial delta shapes.")
 	run.Assume("store cells follow the discipline AddDependency(resource) then read; writers change the value then Invalidate/Strobe; a resource released by its last dependant is replaced (thunder releases = permanently invalidates it)")
